@@ -54,8 +54,8 @@ def miri_run(pkg, mode, shards, extra_args=None, timeout=6 * 3600):
     # (bounded to length 0: under Miri even skipping the full enumeration's descriptors costs minutes)
     warm = ['--caps', '1,1,1', '--budget', '60'] if pkg == 'e_own' else ['--maxn', '0', '--shard', '0/64']
     p = sh(['cargo', '+nightly', 'miri', 'run', '-q', '--offline', '-p', pkg, '--', '--mode', mode, '--tier', 'quick'] + warm, cwd=HARNESS, env=e)
-    if p.returncode not in (0, 2):
-        raise Machinery(f'miri build/run of {pkg} failed: {p.stderr[-2000:]}')
+    # (its exit status is not judged: if the smallest cases already die under Miri, the sharded run below attributes the death to
+    # its case; if the engine does not build, every shard fails outside any case and that is reported as a machinery failure there)
     r = run_engine(miri_cmd(pkg), mode, 'quick', shards=shards, env=env, timeout=timeout, extra_args=extra_args, label='miri')
     for v in r['violations']:
         v['substrate'] = 'miri'
